@@ -887,12 +887,20 @@ class Step(Node):
         hash), so keeping the state would only park it in a state nothing takes it out of
         within the same build, while `report_unbuilt` still counts it as a failure.
         """
+        # `shell` and `env_overrides` are ingredients of the step hash that `can_recycle`
+        # does not compare. A succeeded step is not hash-checked again by itself,
+        # so a change of either must make it pending, after which the hash check notices it.
+        hashed_args_changed = bool(shell) != self.uses_shell() or (
+            dict(env_overrides or {}) != self.get_env_overrides()
+        )
         self.db.execute(
             "UPDATE step SET need = ?, shell = ? WHERE node = ?",
             (need.value, int(shell), self.i),
         )
         state = self.get_state()
-        if state == StepState.FAILED or (state == StepState.SUCCEEDED and self.get_hash() is None):
+        if state == StepState.FAILED or (
+            state == StepState.SUCCEEDED and (self.get_hash() is None or hashed_args_changed)
+        ):
             # A succeeded step without a stored hash lost one of its products while detached
             # (see `after_lost_product`), so its record is incomplete and it must run again.
             self.graph.mark_step_pending(self)
